@@ -19,6 +19,8 @@ import (
 var c04Patterns = []string{
 	".a", "a.", ".a.", "..", ".", ".a.b", ".x.x", "x.x", "a.a", ".aa", ".a.a.", "x.y.x", ".ab.", "b.a", ".x", "x.", "a.b.a", ".a.xx",
 	".aab", ".aab.", ".xxb", ".A.", ".A.b", "b.A.", ".A.A.",
+	// three elisions with a metavariable bound after the first and used again after the third
+	".x.b.x", ".x.a.x.", ".x.y.x",
 }
 
 func c04Patch(pat string, open, close string) string {
